@@ -286,6 +286,15 @@ def r3_no_storage(R) -> None:
                         r_ = r_.value
                     cls_rooted = (isinstance(r_, ast.Name) and r_.id == 'cls') or text(t).startswith(('type(self).', 'self.__class__.', f'{A.split(".")[-1]}.'))
                     if cls_rooted and isinstance(t, (ast.Attribute, ast.Subscript)):
+                        # what is kept is read back only from the class's own namespace (`vars(cls)`), and compared by identity
+                        # with what it was worked out from before it is used: a validated per-class cache, not decided here
+                        own_ns = any(isinstance(y, ast.Call) and dotted(y.func) == 'vars' and y.args and text(y.args[0]) in ('cls', 'type(self)', 'self.__class__')
+                                     for y in ast.walk(fi.node))
+                        ident = any(isinstance(y, ast.Compare) and len(y.ops) == 1 and isinstance(y.ops[0], (ast.Is, ast.IsNot)) and not is_const(y.comparators[0], None)
+                                    for g_ in ast.walk(fi.node) if isinstance(g_, (ast.GeneratorExp, ast.ListComp)) for y in ast.walk(g_))
+                        if own_ns and ident:
+                            raise Unsupported(f'{q}: `{text(x)[:60]}` keeps a result on the class, read back through vars(cls) and re-checked by identity: a validated '
+                                              f'per-class cache, whose completeness this rule does not decide')
                         R.violation(q, 'alias-class-state:' + text(t)[:40], f'`{text(x)[:60]}` keeps state on the class: what one class (or instance) computed is seen by '
                                     f'subclasses and other instances (a subclass with its own ALIASES would inherit the parent\'s resolved map)', where=f'{fi.module.relpath}:{x.lineno}')
         # a method that changes one of its arguments in place, called with an object obtained from the base class or from
